@@ -44,6 +44,9 @@ def stage_pty(ctx, stats, sigs):
         # a second write lands between the first read and the drain loop's re-poll: the call must still return at most `size`
         ([('W', b'abc'), ('W', b'def'), ('W', b'gh'), ('E',)], [1, 0, 1, 0, 1, 0, 0, 0, 1, 0, 0, 0], [(5, True)] * 4, False),
         ([('W', b'abcd'), ('W', b'efgh'), ('E',)], [1, 0, 1, 0, 0, 0, 1, 0, 0, 0], [(7, False)] * 3, True),
+        # one call: a first read, a second piece picked up by the drain loop, and the end of the stream met by the drain loop's next read
+        ([('W', b'first '), ('W', b'second '), ('E',)], [1, 0, 1, 0, 1, 0, 0, 0, 0, 0], [(2000, True)] * 3, False),
+        ([('W', b'first '), ('W', b'second '), ('W', b'third'), ('E',)], [1, 0, 1, 0, 1, 0, 1, 0, 0, 0, 0, 0], [(2000, False)] * 3, True),
     ]
     for c in corpus:
         cases.append(c)
